@@ -237,7 +237,9 @@ func (g *GRE) NextLayerType() gopacket.LayerType {
 }
 
 func (g *GRE) VerifyChecksum() (error, gopacket.ChecksumVerificationResult) {
-	bytes := append(g.Contents, g.Payload...)
+	// Cap Contents so that append copies: Contents has spare capacity inside the packet
+	// buffer and a plain append would write there (data race; caller's buffer under NoCopy).
+	bytes := append(g.Contents[:len(g.Contents):len(g.Contents)], g.Payload...)
 
 	existing := g.Checksum
 	verification := gopacket.ComputeChecksum(bytes, 0)
